@@ -65,14 +65,17 @@ structure Info where
   deno : Nat := 4
   eot : Bool := false
 
-/-- the SysEx arm: bytes up to and including the first F7 (or the end of the data) -/
-def sysexGo (b : List Nat) : Nat → Nat → Nat → String → String × Nat
-  | 0, pos, _, m => (m, pos)
-  | f+1, pos, index, m =>
+/-- `{:02X}` of a `usize`: upper-case hexadecimal, at least two digits -/
+def hexUp (n : Nat) : String :=
+  if n < 256 then hex2U n else String.ofList ((Nat.toDigits 16 n).map Char.toUpper)
+
+/-- the data bytes of a SysEx: as many as its length field says (or as the file still holds), separated by commas; an F7 among
+    them is data like any other byte -/
+def sysexData (b : List Nat) : Nat → Nat → String → String × Nat
+  | 0, pos, m => (m, pos)
+  | n+1, pos, m =>
     if pos < b.length then
-      let x := byteAt b pos
-      let m := if index = 1 then m ++ "/*len:" ++ hex2U x ++ "*/" else (if x ≠ 0xF7 then m ++ hex2U x ++ "," else m ++ hex2U x)
-      if x = 0xF7 then (m, pos + 1) else sysexGo b f (pos + 1) (index + 1) m
+      sysexData b n (pos + 1) (if n = 0 then m ++ hex2U (byteAt b pos) else m ++ hex2U (byteAt b pos) ++ ",")
     else (m, pos)
 
 def metaNameOf (ty len : Nat) : String :=
@@ -100,7 +103,8 @@ def metaStep (b : List Nat) (p : Nat) (info : Info) : String × Nat × Info :=
       (s!"TimeSig={nn}/{pow2w dd}", p + 3 + len, { info with frac := nn, deno := pow2w dd })
     else (metaNameOf ty len ++ "{" ++ readStr b (p + 3) len ++ "};", p + 3 + len, info)
   else if mtype = 0xF0 then
-    let r := sysexGo b (b.length + 1) p 0 ""
+    let d := readDelta b (b.length + 1) (p + 1) 0      -- the length field, a variable-length quantity
+    let r := sysexData b d.1 d.2 ("F0," ++ "/*len:" ++ hexUp d.1 ++ "*/")
     ("SysEx$=" ++ r.1 ++ ";", r.2, info)
   else (s!"// [ERROR] Unknown meta event...={hex2 ty}", p, info)
 
